@@ -412,6 +412,7 @@ func checkC01(c *Ctx) {
 	exprS2(emitPrint, c.Thorough())
 	exprS4(emitPrint, map[bool]int{false: 2, true: 3}[c.Thorough()])
 	exprS5(emitPrint)
+	exprS6(emitPrint)
 	// S3: every syntactic position x lexer-stressing shapes
 	for _, p := range pos {
 		for _, e := range lexShapes() {
